@@ -6,6 +6,50 @@ from . import common, cv_checks
 from .cv_checks import KF_EXC, KF_NOLA, KF_WIDE, KF_NESTED
 
 
+KF_SECANCHOR = 'sec-codon-touched-by-anchor-unlabelled-stop'
+
+
+def sec_anchor_only(r, missing) -> bool:
+    """every missing peptide ends right in front of an annotated Sec codon whose LAST base is the
+    anchor base of an insertion-type record (the codon itself is unchanged): the command reads
+    that codon as a stop once the record is applied, but the peptide ending there carries no
+    variant node and is not reported"""
+    d = r['desc']
+    if not d.get('coding') or not d.get('sec') or not d.get('orf'):
+        return False
+    from Bio.Seq import Seq
+    seq = d.get('tx_seq')
+    if not seq:
+        return False
+    o0 = d['orf'][0]
+    cds = seq[o0:]
+    aa = list(str(Seq(cds[:len(cds) // 3 * 3]).translate()))
+    touched = []
+    for s0 in d['sec']:
+        k = (s0 - o0) // 3
+        if (s0 - o0) % 3 == 0 and 0 <= k < len(aa):
+            aa[k] = 'U'
+            if any(v[0] == s0 + 2 and str(v[3]).startswith(str(v[2])) and len(v[3]) > len(v[2])
+                   for v in d['vars']):
+                touched.append(k)
+    if not touched:
+        return False
+    prot = ''.join(aa)
+    for p in missing:
+        ok = False
+        for k in touched:
+            for q in (p, 'M' + p):
+                if k - len(q) >= 0 and prot[k - len(q):k] == q:
+                    ok = True
+            # W>F images of such a peptide
+            seg = prot[max(0, k - len(p)):k]
+            if len(seg) == len(p) and all(a == b or (a == 'W' and b == 'F') for a, b in zip(seg, p)):
+                ok = True
+        if not ok:
+            return False
+    return True
+
+
 def judge(ctx, res, stream):
     for r in res:
         if 'crash' in r:
@@ -30,7 +74,8 @@ def judge(ctx, res, stream):
                 f'FASTA, e.g. {sorted(core_missing)[:3]}',
                 cv_checks.replay_of(r, kind='missing', missing=sorted(core_missing)),
                 finding_key=KF_WIDE if cv_checks.wide_lookahead(r['desc']['kw']['cleavage_rule'])
-                else (KF_NESTED if cv_checks.has_nested(r) else None))
+                else (KF_NESTED if cv_checks.has_nested(r)
+                      else (KF_SECANCHOR if sec_anchor_only(r, sorted(core_missing)) else None)))
         elif exc_missing:
             ctx.add_violation(
                 f'peptide(s) {sorted(exc_missing)[:3]} missing: cleavage-exception context split across '
